@@ -13,10 +13,13 @@
 (* map), or the service process may crash with its session -- and the         *)
 (* session's ephemeral nodes -- lingering until the session times out while   *)
 (* the restarted service already works with a new one.                        *)
-(* (Kill = presence.kill_node run by an administrator is an exploratory       *)
-(* switch outside the statement of C17; every configuration of the check has  *)
-(* MaxKill = 0 and the driver does not implement it.  With MaxKill = 1 TLC    *)
-(* shows the get / delete window of _safe_delete, see NOTES_C17.md.)          *)
+(*                                                                            *)
+(* EXTENSION beyond the statement of C17 (DESIGN.md 5 / 10.6; MaxKill > 0):   *)
+(* the helpers of treadmill/presence.py run by an administrator or a node-    *)
+(* side tool from a session of their own -- EndpointPresence.unregister_      *)
+(* running / _endpoints / _identity and kill_node -- one ZooKeeper call per   *)
+(* step, interleaved with everything else (section "helpers" below).  Their   *)
+(* clauses (ext.kill.xxx) are conformance class, never property violations.   *)
 (*                                                                            *)
 (* Functional style (DESIGN.md 3.1): one state record `st`, every action is   *)
 (* a guard plus a successor function taking the scenario S as a parameter, so *)
@@ -31,6 +34,11 @@
 (*   data   host |-> container |-> sequence of node data (same indexing)      *)
 (*   kidx   indexes of the paths presence.kill_node removes (running and      *)
 (*          endpoints, not the identity)                                      *)
+(*   ext    what the helpers read besides the presence nodes:                 *)
+(*          srv, plc (host |-> /servers/h, /placement/h), sch (instance |->   *)
+(*          /scheduled/<app>), sproot (/server.presence), sp (host |-> its    *)
+(*          server presence node; empty outside the extension), iorder        *)
+(*          (instances in the order get_children lists their placements)      *)
 (*   defects  subset of {"olderSteals"}: behaviour of the unrepaired code     *)
 (*          (see NewerKept below); {} describes the repaired behaviour.       *)
 EXTENDS Naturals, Sequences, FiniteSets, TLC
@@ -41,7 +49,8 @@ CONSTANTS Hosts,       \* sequence of hosts
           PathsOf,     \* instance -> sequence of paths
           PerCont,     \* path indexes whose data differs per container (endpoint host:port)
           MaxExpire,   \* bound on service failures (session expiry or crash)
-          MaxKill,     \* bound on administrator kill_node calls
+          MaxKill,     \* extension: bound on helper runs (kill_node / unregister_*)
+          Ext,         \* extension: the scenario's `ext` record
           MaxPad,      \* generator only: padding steps after quiescence
           SymFirst,    \* TRUE: the first container starts on the first host (the hosts
                        \* are interchangeable: halves the exhaustive search)
@@ -68,10 +77,18 @@ Newer(S, c1, c2) == /\ S.inst[c1] = S.inst[c2]
 IdlePc == [ph |-> "idle", k |-> "", c |-> "", idx |-> 0, todo |-> <<>>, res |-> ""]
 NoWrite == [op |-> "none", path |-> "", o |-> 0]
 NoLast == [s |-> 0, rk |-> "", rc |-> "", w |-> NoWrite, regc |-> "", stole |-> FALSE,
-           fsb |-> FALSE, await |-> {}]
+           fsb |-> FALSE, await |-> {}, named |-> TRUE]
+
+(* helper run (extension): kind kill | unreg, host it acts for, instance      *)
+(* (unreg), the calls still to make, whether nothing else happened since it   *)
+(* began, the node table then and what an undisturbed run removes             *)
+AdmSess == 900
+NoAdm == [ph |-> "idle", kind |-> "", h |-> "", a |-> "", todo |-> <<>>, clean |-> TRUE,
+          n0 |-> {}, k0 |-> {}]
 
 InitSt(S) ==
-  [nodes   |-> <<>>,
+  [nodes   |-> [p \in Range(S.ext.sp) |-> [d |-> "", o |-> AdmSess + IndexIn(S.hosts,
+                          CHOOSE h \in DOMAIN S.ext.sp : S.ext.sp[h] = p)]],
    sess    |-> [h \in HostSet(S) |-> IndexIn(S.hosts, h)],
    nsess   |-> Len(S.hosts) + 1,
    reg     |-> [h \in HostSet(S) |-> <<>>],       \* service map: path -> container
@@ -88,6 +105,7 @@ InitSt(S) ==
    linger  |-> {},                                \* sessions of crashed services, not yet expired
    nexp    |-> 0,
    nkill   |-> 0,
+   adm     |-> NoAdm,
    pad     |-> 0,
    last    |-> NoLast]                            \* what the last step did (step invariants)
 
@@ -99,6 +117,7 @@ Submitted(st_) == Range(st_.order)
 Quiescent(S, st_) ==
   /\ Submitted(st_) = ContSet(S)
   /\ st_.linger = {}
+  /\ st_.adm.ph = "idle"
   /\ \A h \in HostSet(S) : st_.active[h] = {} /\ st_.queue[h] = <<>> /\ st_.pc[h].ph = "idle"
 
 -----------------------------------------------------------------------------
@@ -370,28 +389,120 @@ Vanish(S, st_, ps, word) ==
 ReapDo(S, st_, s, word) ==
   [Vanish(S, st_, SessNodes(st_, s), word) EXCEPT !.linger = @ \ {s}]
 
-(* An administrator runs presence.kill_node(h) (cli/admin/blackout.py): for    *)
-(* every instance placed on h the running and endpoint nodes whose data names *)
-(* h are deleted -- from the administrator's session.                          *)
+(* Helpers of treadmill/presence.py (extension).                              *)
+(*                                                                            *)
+(* kill_node(h) (cli/admin/blackout.py), in this order: get /servers/h;       *)
+(* get_children /placement/h; for every instance placed there, in listing     *)
+(* order: get /scheduled/<app>, unregister_running, unregister_endpoints      *)
+(* (NOT the identity); then unregister_server: get_children /server.presence, *)
+(* ensure_deleted (get_children, delete) of h's server presence node.         *)
+(* unregister_running / _endpoints: get; delete only if the node's DATA names *)
+(* the host; unregister_identity: get; data.host names the host =>            *)
+(* ensure_deleted.  A node that is missing is skipped.  Nothing is versioned: *)
+(* the delete hits whatever is at the path by then (ext.kill.window).         *)
 WrittenBy(S, h, p, d) ==
   \E c \in ContSet(S) : \E k \in DOMAIN CPaths(S, c) : CPaths(S, c)[k] = p /\ S.data[h][c][k] = d
 
+Item(t, p) == [t |-> t, p |-> p]
+
+(* running and endpoint paths of instance a, in the order the helpers visit them *)
+ChkSeq(S, a) ==
+  LET ks == SelectSeq([k \in 1..Len(S.paths[a]) |-> k], LAMBDA k : k \in S.kidx) IN
+  [i \in 1..Len(ks) |-> Item("chk", S.paths[a][ks[i]])]
+IdSeq(S, a) ==
+  LET ks == SelectSeq([k \in 1..Len(S.paths[a]) |-> k], LAMBDA k : k \notin S.kidx) IN
+  [i \in 1..Len(ks) |-> Item("ichk", S.paths[a][ks[i]])]
+
+RECURSIVE AppItems(_, _)
+AppItems(S, apps) ==
+  IF apps = <<>> THEN <<>>
+  ELSE <<Item("get0", S.ext.sch[Head(apps)])>> \o ChkSeq(S, Head(apps)) \o AppItems(S, Tail(apps))
+
+NamesHost(S, st_, h, p) ==
+  p \in DOMAIN st_.nodes /\ (WrittenBy(S, h, p, st_.nodes[p].d) \/ (h \in DOMAIN S.ext.sp /\ S.ext.sp[h] = p))
+
+(* what an undisturbed kill_node(h) removes *)
 KillSet(S, st_, h) ==
   {p \in DOMAIN st_.nodes :
-     /\ \E a \in st_.placed[h] : \E k \in S.kidx \cap DOMAIN S.paths[a] : S.paths[a][k] = p
-     /\ WrittenBy(S, h, p, st_.nodes[p].d)}
+     \/ /\ \E a \in st_.placed[h] : \E k \in S.kidx \cap DOMAIN S.paths[a] : S.paths[a][k] = p
+        /\ WrittenBy(S, h, p, st_.nodes[p].d)
+     \/ h \in DOMAIN S.ext.sp /\ S.ext.sp[h] = p}
 
-CanKill(S, st_, h, word) ==
-  /\ st_.nkill < MaxKill
-  /\ ~Quiescent(S, st_)
-  /\ word \in Orders(FiredOn(st_, KillSet(S, st_, h)))
+(* what an undisturbed unregister_running/_endpoints/_identity of a for h removes *)
+UnregSet(S, st_, h, a) ==
+  {p \in DOMAIN st_.nodes \cap Range(S.paths[a]) : WrittenBy(S, h, p, st_.nodes[p].d)}
 
-KillDo(S, st_, h, word) ==
-  [Vanish(S, st_, KillSet(S, st_, h), word) EXCEPT !.nkill = @ + 1]
+CanHelp(S, st_) == st_.adm.ph = "idle" /\ st_.nkill < MaxKill /\ ~Quiescent(S, st_)
+
+KillBeginDo(S, st_, h) ==
+  [st_ EXCEPT !.adm = [NoAdm EXCEPT !.ph = "run", !.kind = "kill", !.h = h,
+                                    !.todo = <<Item("get0", S.ext.srv[h]), Item("plc", S.ext.plc[h])>>,
+                                    !.n0 = DOMAIN st_.nodes, !.k0 = KillSet(S, st_, h)],
+              !.nkill = @ + 1, !.last = NoLast]
+
+UnregBeginDo(S, st_, h, a) ==
+  [st_ EXCEPT !.adm = [NoAdm EXCEPT !.ph = "run", !.kind = "unreg", !.h = h, !.a = a,
+                                    !.todo = ChkSeq(S, a) \o IdSeq(S, a),
+                                    !.n0 = DOMAIN st_.nodes, !.k0 = UnregSet(S, st_, h, a)],
+              !.nkill = @ + 1, !.last = NoLast]
+
+InACall(st_) == st_.adm.ph = "run" /\ st_.adm.todo # <<>>
+
+ACallDesc(S, st_) ==
+  LET it == Head(st_.adm.todo)
+      ex == it.p \in DOMAIN st_.nodes
+      dyn == IF ex THEN "ok" ELSE "NoNode" IN
+  CASE it.t = "get0"   -> [op |-> "get", path |-> it.p, res |-> "ok"]
+    [] it.t = "plc"    -> [op |-> "get_children", path |-> it.p, res |-> "ok"]
+    [] it.t = "sproot" -> [op |-> "get_children", path |-> it.p, res |-> "ok"]
+    [] it.t = "chk"    -> [op |-> "get", path |-> it.p, res |-> dyn]
+    [] it.t = "ichk"   -> [op |-> "get", path |-> it.p, res |-> dyn]
+    [] it.t = "ikids"  -> [op |-> "get_children", path |-> it.p, res |-> dyn]
+    [] it.t = "del"    -> [op |-> "delete", path |-> it.p, res |-> dyn]
+
+AFireOrders(S, st_) ==
+  LET it == Head(st_.adm.todo) IN
+  IF it.t = "del" /\ it.p \in DOMAIN st_.nodes THEN Orders(Watchers(st_, it.p)) ELSE {<<>>}
+
+ACallDo(S, st_, ord) ==
+  LET adm == st_.adm
+      h == adm.h
+      it == Head(adm.todo)
+      rest == Tail(adm.todo)
+      ex == it.p \in DOMAIN st_.nodes
+      s0 == [st_ EXCEPT !.last = [NoLast EXCEPT !.s = AdmSess, !.rk = adm.kind, !.rc = h]]
+      go(todo) == [s0 EXCEPT !.adm.todo = todo] IN
+  CASE it.t = "get0" -> go(rest)
+    [] it.t = "plc" ->
+         go(AppItems(S, SelectSeq(S.ext.iorder, LAMBDA a : a \in st_.placed[h]))
+            \o <<Item("sproot", S.ext.sproot)>> \o rest)
+    [] it.t = "sproot" ->
+         go((IF h \in DOMAIN S.ext.sp /\ S.ext.sp[h] \in DOMAIN st_.nodes
+             THEN <<Item("ikids", S.ext.sp[h]), Item("del", S.ext.sp[h])>> ELSE <<>>) \o rest)
+    [] it.t = "chk" ->
+         go((IF NamesHost(S, st_, h, it.p) THEN <<Item("del", it.p)>> ELSE <<>>) \o rest)
+    [] it.t = "ichk" ->
+         go((IF NamesHost(S, st_, h, it.p) THEN <<Item("ikids", it.p), Item("del", it.p)>> ELSE <<>>)
+            \o rest)
+    [] it.t = "ikids" -> go(IF ex THEN rest ELSE Tail(rest))
+    [] it.t = "del" ->
+         IF ~ex THEN go(rest)
+         ELSE Fire(S, [s0 EXCEPT !.adm.todo = rest,
+                                 !.nodes = Drop(@, it.p),
+                                 !.claimed = [h2 \in HostSet(S) |-> DropAll(@[h2], {it.p})],
+                                 !.last.w = [op |-> "delete", path |-> it.p, o |-> st_.nodes[it.p].o],
+                                 !.last.named = NamesHost(S, st_, h, it.p),
+                                 !.last.await = IF ord = <<>> THEN {} ELSE {it.p}], ord)
+
+CanAEnd(st_) == st_.adm.ph = "run" /\ st_.adm.todo = <<>>
+AEndDo(st_) == [st_ EXCEPT !.adm = NoAdm, !.last = NoLast]
+
+(* anything else that happens while a helper runs disturbs it *)
+Dirty(st_) == IF st_.adm.ph = "idle" THEN st_ ELSE [st_ EXCEPT !.adm.clean = FALSE]
 
 -----------------------------------------------------------------------------
 Scn == [hosts |-> Hosts, conts |-> Conts, inst |-> InstOf, paths |-> PathsOf,
-        defects |-> Defects, kidx |-> {1} \cup PerCont,
+        defects |-> Defects, kidx |-> {1} \cup PerCont, ext |-> Ext,
         data |-> [h \in Range(Hosts) |-> [c \in Range(Conts) |->
                     [k \in 1..Len(PathsOf[InstOf[c]]) |->
                         IF k \in PerCont THEN <<h, c>> ELSE <<h>>]]]]
@@ -400,16 +511,20 @@ Init == st = InitSt(Scn)
 
 Submit(h, c) == /\ CanSubmit(Scn, st, h, c)
                 /\ (SymFirst /\ st.order = <<>> => h = Hosts[1])
-                /\ st' = SubmitDo(Scn, st, h, c)
-Finish(h, c) == CanFinish(Scn, st, h, c) /\ st' = FinishDo(Scn, st, h, c)
-Begin(h) == CanBegin(Scn, st, h) /\ st' = BeginDo(Scn, st, h)
-Call(h, ord) == InCall(st, h) /\ ord \in FireOrders(Scn, st, h) /\ st' = CallDo(Scn, st, h, ord)
-End(h) == CanEnd(Scn, st, h) /\ st' = EndDo(Scn, st, h)
-Expire(h, word) == CanExpire(Scn, st, h, word) /\ st' = ExpireDo(Scn, st, h, word)
-Restart(h, rord) == CanRestart(Scn, st, h, rord) /\ st' = RestartDo(Scn, st, h, rord)
-Crash(h) == CanCrash(Scn, st, h) /\ st' = CrashDo(Scn, st, h)
-Reap(s, word) == CanReap(Scn, st, s, word) /\ st' = ReapDo(Scn, st, s, word)
-Kill(h, word) == CanKill(Scn, st, h, word) /\ st' = KillDo(Scn, st, h, word)
+                /\ st' = Dirty(SubmitDo(Scn, st, h, c))
+Finish(h, c) == CanFinish(Scn, st, h, c) /\ st' = Dirty(FinishDo(Scn, st, h, c))
+Begin(h) == CanBegin(Scn, st, h) /\ st' = Dirty(BeginDo(Scn, st, h))
+Call(h, ord) == /\ InCall(st, h) /\ ord \in FireOrders(Scn, st, h)
+                /\ st' = Dirty(CallDo(Scn, st, h, ord))
+End(h) == CanEnd(Scn, st, h) /\ st' = Dirty(EndDo(Scn, st, h))
+Expire(h, word) == CanExpire(Scn, st, h, word) /\ st' = Dirty(ExpireDo(Scn, st, h, word))
+Restart(h, rord) == CanRestart(Scn, st, h, rord) /\ st' = Dirty(RestartDo(Scn, st, h, rord))
+Crash(h) == CanCrash(Scn, st, h) /\ st' = Dirty(CrashDo(Scn, st, h))
+Reap(s, word) == CanReap(Scn, st, s, word) /\ st' = Dirty(ReapDo(Scn, st, s, word))
+KillBegin(h) == CanHelp(Scn, st) /\ st' = KillBeginDo(Scn, st, h)
+UnregBegin(h, a) == CanHelp(Scn, st) /\ st' = UnregBeginDo(Scn, st, h, a)
+ACall(ord) == InACall(st) /\ ord \in AFireOrders(Scn, st) /\ st' = ACallDo(Scn, st, ord)
+AEnd(x) == x = 1 /\ CanAEnd(st) /\ st' = AEndDo(st)
 Pad(n) == Quiescent(Scn, st) /\ st.pad < MaxPad /\ n = st.pad + 1
           /\ st' = [st EXCEPT !.pad = n, !.last = NoLast]
 
@@ -428,7 +543,10 @@ Next ==
   \/ \E h \in Range(Hosts), rord \in ContSeqs : Restart(h, rord)
   \/ \E h \in Range(Hosts) : Crash(h)
   \/ \E s \in 1..(Len(Hosts) + MaxExpire), word \in FireSeqs : Reap(s, word)
-  \/ \E h \in Range(Hosts), word \in FireSeqs : Kill(h, word)
+  \/ \E h \in Range(Hosts) : KillBegin(h)
+  \/ \E h \in Range(Hosts), a \in DOMAIN PathsOf : UnregBegin(h, a)
+  \/ \E ord \in FireSeqs : ACall(ord)
+  \/ \E x \in {1} : AEnd(x)
   \/ \E n \in 1..MaxPad : Pad(n)
 
 Spec == Init /\ [][Next]_st
@@ -452,7 +570,8 @@ RegisteredOwned ==
 
 (* C17.noForeign: a set / delete is applied only to a node the calling        *)
 (* session owns at that instant.                                              *)
-NoForeign == st.last.w.op \in {"set", "delete"} => st.last.w.o = st.last.s
+NoForeign == st.last.rk \in {"create", "delete"} /\ st.last.w.op \in {"set", "delete"}
+                => st.last.w.o = st.last.s
 
 (* C17.waits: a request that met a foreign owner writes nothing afterwards    *)
 (* and ends as "wait"; a retry is requested only when the awaited node is     *)
@@ -477,4 +596,37 @@ NewerKept == ~st.last.stole
 (* sanity of the model itself: a request never finds its own node missing     *)
 (* (MaxKill = 0)                                                              *)
 NoError == \A h \in Range(Hosts) : st.pc[h].res # "error"
+
+-----------------------------------------------------------------------------
+(* Extension (MaxKill > 0).  With helpers in the environment Ephemeral, Waits, *)
+(* OwnOnly (and NewerKept for the repaired behaviour) still hold; NoForeign,   *)
+(* RegisteredOwned and NoError do not (see ExtNamed).                          *)
+Helper == st.last.rk \in {"kill", "unreg"}
+
+(* ext.kill.scope: helpers only delete; kill_node deletes running / endpoint   *)
+(* nodes and the host's server presence node, never an identity; unregister_*  *)
+(* of an instance only that instance's nodes.                                  *)
+ExtScope ==
+  Helper =>
+    /\ st.last.w.op \in {"none", "delete"}
+    /\ st.last.w.op = "delete" =>
+         IF st.last.rk = "kill"
+         THEN \/ \E a \in DOMAIN PathsOf : \E k \in Scn.kidx \cap DOMAIN PathsOf[a] :
+                    PathsOf[a][k] = st.last.w.path
+              \/ st.last.rc \in DOMAIN Ext.sp /\ Ext.sp[st.last.rc] = st.last.w.path
+         ELSE st.last.w.path \in AllPaths(Scn)
+
+(* ext.kill.atomic: a helper run that nothing else interleaved with has        *)
+(* removed exactly the nodes whose data names the host (KillSet / UnregSet at  *)
+(* its start) and nothing else.                                                *)
+ExtAtomic ==
+  st.adm.ph = "run" /\ st.adm.todo = <<>> /\ st.adm.clean =>
+     DOMAIN st.nodes = st.adm.n0 \ st.adm.k0
+
+(* ext.kill.window (OBSERVATIONS, expected to be violated in the model): the   *)
+(* node a helper deletes names its host at that instant -- false when the      *)
+(* node was replaced between the helper's get and its delete; and NoForeign    *)
+(* with helpers around -- false when a node _safe_delete has just seen as its  *)
+(* own is killed and re-created by the other host before the delete.           *)
+ExtNamed == Helper /\ st.last.w.op = "delete" => st.last.named
 =============================================================================
